@@ -189,7 +189,7 @@ impl Prop for Faulted {
     }
 }
 
-const ENUM_RULE: &str = "deterministic single-fault grid on the bundled voice and 20 fixed generated voices: every header number x 11 replacements; every header line deleted and duplicated; truncation at every section/block boundary +-1; every single-character substitution (17 structural characters and the 8 one-bit errors) at every position of the header, tree and window text (header only on the bundled voice); on generated voices every pair (one header number -> 0, another one -> value+-1); plus the unmodified file (must load). Non-trivial: loader returned Err; distinct by (base, fault)";
+const ENUM_RULE: &str = "deterministic single-fault grid on the bundled voice and 20 fixed generated voices: every header number x 11 replacements; every header line deleted and duplicated; the values of every two range-holding header lines exchanged; truncation at every section/block boundary +-1; every single-character substitution (17 structural characters and the 8 one-bit errors) at every position of the header, tree and window text (header only on the bundled voice); on generated voices every pair (one header number -> 0, another one -> value+-1) and every compensating pair (one -> value-1, another -> value+1); plus the unmodified file (must load). Non-trivial: loader returned Err; distinct by (base, fault)";
 
 fn eval_enum_case(base: usize, desc: &str, bytes: &[u8], must_load: bool) -> Result<LoadOutcome, Failure> {
     note_inflight(&json!({ "kind": "enum", "base": base, "fault": desc }), bytes);
@@ -274,6 +274,37 @@ fn extra(s: &mut Session) {
             total += 2;
             if !run_enum_case(s, base, format!("delete-line#{}:{}", li, key), &del, false) || !run_enum_case(s, base, format!("duplicate-line#{}:{}", li, key), &dup, false) {
                 return;
+            }
+        }
+        // offsets swapped: the right-hand sides of every two header lines that hold data ranges are
+        // exchanged (e.g. the window list of one stream with that of another, a PDF range with a tree
+        // range); not strided - there are at most a few hundred pairs per voice
+        {
+            let with_ranges: Vec<usize> = idx
+                .lines
+                .iter()
+                .enumerate()
+                .filter(|(_, (_, _, v))| v.split(',').all(|r| r.split_once('-').map(|(a, b)| !a.is_empty() && a.bytes().all(|c| c.is_ascii_digit()) && !b.is_empty() && b.bytes().all(|c| c.is_ascii_digit())).unwrap_or(false)))
+                .map(|(i, _)| i)
+                .collect();
+            for (x, &i) in with_ranges.iter().enumerate() {
+                for &j in &with_ranges[x + 1..] {
+                    let (ri, ki, vi) = &idx.lines[i];
+                    let (rj, kj, vj) = &idx.lines[j];
+                    if vi == vj || ri.end > rj.start {
+                        continue;
+                    }
+                    let nl = |r: &std::ops::Range<usize>| if bytes[r.clone()].ends_with(b"\n") { "\n" } else { "" };
+                    let mut b = bytes[..ri.start].to_vec();
+                    b.extend_from_slice(format!("{}:{}{}", ki, vj, nl(ri)).as_bytes());
+                    b.extend_from_slice(&bytes[ri.end..rj.start]);
+                    b.extend_from_slice(format!("{}:{}{}", kj, vi, nl(rj)).as_bytes());
+                    b.extend_from_slice(&bytes[rj.end..]);
+                    total += 1;
+                    if !run_enum_case(s, base, format!("swap-values:{}<->{}", ki, kj), &b, false) {
+                        return;
+                    }
+                }
             }
         }
         for p in truncation_points(&bytes, &idx) {
@@ -366,19 +397,24 @@ fn extra(s: &mut Session) {
         let bytes = base_voice(base);
         let Some(idx) = index_voice(&bytes) else { continue };
         let n = idx.numbers.len();
-        let jobs: Vec<(usize, usize, usize)> = (0..n).flat_map(|i| (0..n).filter(move |j| *j != i).flat_map(move |j| [(i, j, 2usize), (i, j, 3usize)])).collect();
+        // (first number, second number, replacement of the second): the first becomes 0; with the
+        // marker 13 the first becomes value-1 while the second becomes value+1 (a COMPENSATING pair:
+        // products such as vector length x windows stay intact while the factors disagree with the
+        // rest of the file)
+        let jobs: Vec<(usize, usize, usize)> = (0..n).flat_map(|i| (0..n).filter(move |j| *j != i).flat_map(move |j| [(i, j, 2usize), (i, j, 3usize), (i, j, 13usize)])).collect();
         let build = |j: &(usize, usize, usize)| -> Vec<u8> {
             // replace the later token first so that the earlier token's offsets stay valid
             let (zero, moved, r) = *j;
+            let (r_first, r) = if r == 13 { (3, 2) } else { (0, r) };
             if idx.numbers[zero].start > idx.numbers[moved].start {
-                let b = replace_number(&bytes, &idx.numbers[zero], 0);
+                let b = replace_number(&bytes, &idx.numbers[zero], r_first);
                 replace_number(&b, &idx.numbers[moved], r)
             } else {
                 let b = replace_number(&bytes, &idx.numbers[moved], r);
-                replace_number(&b, &idx.numbers[zero], 0)
+                replace_number(&b, &idx.numbers[zero], r_first)
             }
         };
-        let desc_of = |j: &(usize, usize, usize)| format!("number#{}->0 + number#{}->value{}", j.0, j.1, if j.2 == 2 { "+1" } else { "-1" });
+        let desc_of = |j: &(usize, usize, usize)| if j.2 == 13 { format!("number#{}->value-1 + number#{}->value+1", j.0, j.1) } else { format!("number#{}->0 + number#{}->value{}", j.0, j.1, if j.2 == 2 { "+1" } else { "-1" }) };
         let nthreads = std::thread::available_parallelism().map(|n| n.get()).unwrap_or(4).min(16);
         let chunk = jobs.len().div_ceil(nthreads).max(1);
         let results: Vec<Vec<Result<LoadOutcome, Failure>>> = std::thread::scope(|sc| {
